@@ -153,6 +153,39 @@ def make_e(kind, ctx_i, tail):
     return run
 
 
+def make_r(chunk, seed, per_chunk=220):
+    """seeded random pipelines of 4-6 steps over the whole alphabet (verb steps + expression steps): sequences the exhaustive
+    depth-3 enumeration cannot reach"""
+    def run(carve):
+        import random
+
+        S = P.steps() + P.expr_steps()
+        rnd = random.Random(f"C01/R/{seed}/{chunk}")
+        n, bad, refused, tried = 0, [], 0, 0
+        kinds = ("mixed", "mixed", "tall", "single", "empty")
+        while n < per_chunk and tried < per_chunk * 30:
+            tried += 1
+            depth = rnd.choice((4, 4, 5, 5, 6))
+            pipe = [rnd.choice(S) for _ in range(depth)]
+            # keep the share of joins / unions moderate (they multiply rows)
+            if sum(1 for st in pipe if st.breaks) > 2:
+                continue
+            kind = rnd.choice(kinds)
+            r = P.compare(pipe, kind, ("hidden_group_col",))  # pipelines that hide a grouping column while grouped are the known finding F-hidden-group-col (reported by the D obligations)
+            if r is None or r[0] == "rejected":
+                continue
+            n += 1
+            if r[0] == "mismatch":
+                bad.append(r[1])
+            elif r[0] == "refused":
+                refused += 1
+        out = _enum_outcome(f"{per_chunk} seeded random pipelines of 4-6 steps (chunk {chunk}, seed {seed}): Polars and SQLite agree", n, bad)
+        out.notes = [f"refused by SQL: {refused}; candidates drawn: {tried}"]
+        return out
+
+    return run
+
+
 _obligations_d = obligations
 
 
@@ -164,6 +197,13 @@ def obligations(tier):  # noqa: F811
     tails = [("", []), (">>filter", [B["filter(a>1)"]]), (">>arrange", [B["arrange(h.desc)"]])]
     if tier == "thorough":
         tails += [(">>summarize", [B["summarize(n,m)"]]), (">>alias>>mutate", [B["alias"], B["mutate(x=a+h)"]]), (">>slice", [B["slice_head(3,1)"]])]
+    import os
+
+    seed = int(os.environ.get("VERIF_SEED", "0") or 0)
+    for chunk in range(16 if tier == "quick" else 64):
+        obs.append(Obligation(f"C01/R/{chunk:02d}", "R", "seeded random pipelines of 4-6 steps (native differential)", make_r(chunk, seed), functions=fns,
+                              bounded=f"220 random pipelines of 4-6 steps per chunk over {len(P.steps()) + len(P.expr_steps())} steps, inputs mixed / tall / single / empty; seed {seed}",
+                              carveouts={"hidden_group_col": "a grouping column is overwritten while the table is grouped (F-hidden-group-col)"}))
     for kind in ("mixed", "empty", "single", "tall"):
         for i, cx in enumerate(ctxs):
             for tl, tail in tails:
